@@ -25,13 +25,21 @@ type c07Stack struct {
 	wrapper, src afero.Fs
 	root         string
 	cleanup      func()
+	cmp          afero.Fs // what the wrapper's reads are compared with (the wrapped filesystem); nil = src
+}
+
+func (st *c07Stack) direct() afero.Fs {
+	if st.cmp != nil {
+		return st.cmp
+	}
+	return st.src
 }
 
 func c07New(name string) *c07Stack {
 	switch name {
 	case "ro-mem":
 		m := afero.NewMemMapFs()
-		return &c07Stack{afero.NewReadOnlyFs(m), m, "/", func() {}}
+		return &c07Stack{afero.NewReadOnlyFs(m), m, "/", func() {}, nil}
 	case "ro-os":
 		dir, err := os.MkdirTemp("", "verif-c07-")
 		if err != nil {
@@ -39,15 +47,24 @@ func c07New(name string) *c07Stack {
 		}
 		syscallUmask()
 		src := &rootedFs{afero.NewOsFs(), dir}
-		return &c07Stack{afero.NewReadOnlyFs(src), src, "/", func() { os.RemoveAll(dir) }}
+		return &c07Stack{afero.NewReadOnlyFs(src), src, "/", func() { os.RemoveAll(dir) }, nil}
 	case "ro-bp":
 		m := afero.NewMemMapFs()
 		m.MkdirAll("/base", 0o755)
 		src := afero.NewBasePathFs(m, "/base")
-		return &c07Stack{afero.NewReadOnlyFs(src), src, "/", func() {}}
+		return &c07Stack{afero.NewReadOnlyFs(src), src, "/", func() {}, nil}
 	case "ro-ro":
 		m := afero.NewMemMapFs()
-		return &c07Stack{afero.NewReadOnlyFs(afero.NewReadOnlyFs(m)), m, "/", func() {}}
+		return &c07Stack{afero.NewReadOnlyFs(afero.NewReadOnlyFs(m)), m, "/", func() {}, nil}
+	case "ro-mem-reopen": // the all-memory stack again, for lines the model does not have (File.Open on a closed handle)
+		m := afero.NewMemMapFs()
+		return &c07Stack{afero.NewReadOnlyFs(m), m, "/", func() {}, nil}
+	case "ro-cache":
+		// the wrapped filesystem is a CacheOnReadFs whose cache is empty: set-up lines write the base directly, so
+		// nothing is cached when the wrapper is first used (its Open and OpenFile(O_RDONLY) take different routes)
+		b, l := afero.NewMemMapFs(), afero.NewMemMapFs()
+		c := afero.NewCacheOnReadFs(b, l, time.Hour)
+		return &c07Stack{afero.NewReadOnlyFs(c), b, "/", func() {}, c}
 	}
 	panic("unknown stack " + name)
 }
@@ -62,7 +79,7 @@ func c07RunImpl(c corr.Case) []string {
 			st.cleanup()
 		}
 	}()
-	old := time.Unix(1_600_000_000, 0)
+	old := time.Unix(1_600_000_000, 123_456_789) // not a whole second: a rounded time stamp shows
 	srcH := map[int]bool{} // handles opened directly on the source (set-up), not through the wrapper
 	out := make([]string, 0, len(c.Lines))
 	for _, line := range c.Lines {
@@ -104,6 +121,14 @@ func c07RunImpl(c corr.Case) []string {
 			if strings.HasPrefix(t[0], "h.") && srcH[atoi(t[1])] {
 				return r.Exec(t) + " #SRC"
 			}
+			if t[0] == "h.reopen" { // File.Open() of the handle's own type, if it has one (mem.File does)
+				if hi := atoi(t[1]); hi < len(r.H) {
+					if ro, ok := r.H[hi].(interface{ Open() error }); ok {
+						return fsErr(ro.Open())
+					}
+				}
+				return "err:inval"
+			}
 			before := FullSnapshot(st.src, st.root)
 			res := r.Exec(t)
 			note := ""
@@ -113,7 +138,7 @@ func c07RunImpl(c corr.Case) []string {
 			// transparency of Fs-level reads
 			switch t[0] {
 			case "stat":
-				fi, err := st.src.Stat(string(corr.UnHex(t[1])))
+				fi, err := st.direct().Stat(string(corr.UnHex(t[1])))
 				want := "err:" + ErrClass(err)
 				if err == nil {
 					want = infoLine(fi)
@@ -123,7 +148,7 @@ func c07RunImpl(c corr.Case) []string {
 				}
 			case "open":
 				if strings.HasPrefix(res, "h=") {
-					direct, err := st.src.Open(string(corr.UnHex(t[1])))
+					direct, err := st.direct().Open(string(corr.UnHex(t[1])))
 					via, err2 := st.wrapper.Open(string(corr.UnHex(t[1]))) // a second handle: the script's own is left untouched
 					if err != nil || err2 != nil {
 						note += " #NOT-TRANSPARENT(direct open fails)"
@@ -139,7 +164,7 @@ func c07RunImpl(c corr.Case) []string {
 					if via != nil {
 						via.Close()
 					}
-				} else if _, err := st.src.Stat(string(corr.UnHex(t[1]))); err == nil {
+				} else if _, err := st.direct().Stat(string(corr.UnHex(t[1]))); err == nil {
 					note += " #NOT-TRANSPARENT(open fails, source has it)"
 				}
 			}
@@ -281,6 +306,30 @@ func c07Exhaustive(tier string) []corr.Case {
 				cases = append(cases, corr.Case{Lines: l})
 			}
 		}
+	}
+	// a CacheOnReadFs as the wrapped filesystem, nothing cached yet: Open and read-only OpenFile of files and directories
+	for _, tg := range []string{"/d", "/d/file", "/d/sub", "/top", "/absent"} {
+		for _, fl := range []int{-1, 0, 0x101000} {
+			l := append([]string{"case ro-cache"}, c07Setup()...)
+			if fl < 0 {
+				l = append(l, "open "+h(tg))
+			} else {
+				l = append(l, fmt.Sprintf("openfile %s %d 420", h(tg), fl))
+			}
+			l = append(l, "h.read 3 3", "h.readdirnames 3 -1", "h.write 3 58", "h.close 3", "stat "+h(tg), "open "+h(tg), "create "+h(tg), "remove "+h(tg), "snapshot")
+			cases = append(cases, corr.Case{Lines: l})
+		}
+	}
+	// a handle closed and opened again through its own Open method keeps what it was opened for
+	for _, fl := range []int{-1, 0, 0x101000} {
+		l := append([]string{"case ro-mem-reopen"}, c07Setup()...)
+		if fl < 0 {
+			l = append(l, "open "+h("/d/file"))
+		} else {
+			l = append(l, fmt.Sprintf("openfile %s %d 420", h("/d/file"), fl))
+		}
+		l = append(l, "h.close 3", "h.reopen 3", "h.write 3 58", "h.writeat 3 59 1", "h.trunc 3 0", "h.writestring 3 5a", "h.close 3", "h.reopen 3", "h.trunc 3 1", "h.close 3", "snapshot")
+		cases = append(cases, corr.Case{Lines: l})
 	}
 	return cases
 }
